@@ -27,6 +27,8 @@ pub struct GenCfg {
     pub abort_weight: u32,
     /// weight of "drop an outstanding request" among shell actions
     pub drop_weight: u32,
+    /// task-to-task channels
+    pub chans: bool,
     /// per cent of the universes whose first program is put behind a pending first part:
     /// `then(task awaiting a request, abortable(program))` - the shape in which a command can be
     /// aborted before it has been started
@@ -35,10 +37,10 @@ pub struct GenCfg {
 
 impl GenCfg {
     pub fn standard() -> Self {
-        GenCfg { depth: 3, max_acts: 30, abortable: true, task_aborts: true, retaining: true, legacy: false, again_weight: 2, start_weight: 1, wrap: false, scale: true, garbage_weight: 0, abort_weight: 1, drop_weight: 3, behind_then: 4 }
+        GenCfg { depth: 3, max_acts: 30, abortable: true, task_aborts: true, retaining: true, legacy: false, again_weight: 2, start_weight: 1, wrap: false, scale: true, garbage_weight: 0, abort_weight: 1, drop_weight: 3, chans: true, behind_then: 4 }
     }
     pub fn legacy() -> Self {
-        GenCfg { depth: 3, max_acts: 30, abortable: false, task_aborts: false, retaining: false, legacy: true, again_weight: 2, start_weight: 1, wrap: false, scale: true, garbage_weight: 0, abort_weight: 1, drop_weight: 3, behind_then: 4 }
+        GenCfg { depth: 3, max_acts: 30, abortable: false, task_aborts: false, retaining: false, legacy: true, again_weight: 2, start_weight: 1, wrap: false, scale: true, garbage_weight: 0, abort_weight: 1, drop_weight: 3, chans: true, behind_then: 4 }
     }
 }
 
@@ -52,6 +54,10 @@ fn block(cfg: GenCfg) -> BoxedStrategy<Vec<Stmt>> {
             (1, Just(Stmt::AwaitChain).boxed()),
             (1, if cfg.scale { prop_oneof![30 => 2u16..9, 1 => 1020u16..1300].prop_map(Stmt::Burst).boxed() } else { (2u16..9).prop_map(Stmt::Burst).boxed() }),
         ];
+        if cfg.chans {
+            v.push((1, (0u8..2).prop_map(Stmt::ChanSend).boxed()));
+            v.push((1, (0u8..2).prop_map(Stmt::ChanRecv).boxed()));
+        }
         if !cfg.legacy {
             v.push((1, (0u8..2).prop_map(Stmt::Join).boxed()));
             if cfg.task_aborts {
@@ -73,12 +79,24 @@ fn block(cfg: GenCfg) -> BoxedStrategy<Vec<Stmt>> {
             6 => simple(),
             2 => (0u8..3, inner.clone()).prop_map(|(n, b)| Stmt::StreamLoop(n, b)),
             3 => inner.clone().prop_map(Stmt::Spawn),
+            1 => (2u8..5, inner.clone()).prop_map(|(n, b)| Stmt::Fan(n, b)),
+            (if cfg.scale { 1 } else { 0 }) => (33u8..45, big_fan_body(cfg)).prop_map(|(n, b)| Stmt::Fan(n, b)),
             1 => prop::collection::vec(inner.clone(), 1..4).prop_map(Stmt::JoinN),
             1 => prop::collection::vec(inner.clone(), 1..4).prop_map(Stmt::Select),
+            (if cfg.retaining || cfg.legacy { 1 } else { 0 }) => prop::collection::vec(inner.clone(), 2..4).prop_map(Stmt::SelectKeep),
         ];
         prop::collection::vec(st, 1..5)
     })
     .boxed()
+}
+
+/// the body of a fan of more than 32 tasks: small, so that the case stays cheap
+fn big_fan_body(cfg: GenCfg) -> BoxedStrategy<Vec<Stmt>> {
+    let mut v: Vec<(u32, BoxedStrategy<Stmt>)> = vec![(2, (0u16..100).prop_map(Stmt::Emit).boxed()), (2, Just(Stmt::Await).boxed()), (1, Just(Stmt::Yield(1)).boxed())];
+    if !cfg.legacy {
+        v.push((4, (0u8..2).prop_map(Stmt::Join).boxed()));
+    }
+    prop::collection::vec(proptest::strategy::Union::new_weighted(v), 1..3).boxed()
 }
 
 pub fn task(cfg: GenCfg) -> BoxedStrategy<Vec<Stmt>> {
